@@ -22,25 +22,26 @@ Inductive kind := KPost (c:code) | KTimer (deadline:N) | KIo (fd:Z) (d:dir).
 Inductive pc := Idle | Popped | Executed | Poll.
 Record ioev := mkEv { efd : Z; ein : bool; eout : bool; eerr : bool; eself : bool }.
 
-Record st := mkSt { queue : list entry; fdmap : list (Z*iod); timers : list (N*N); stop : bool; polling : bool; reactor : bool; woken : bool; clock : N; counter : nat; lpc : pc; running : option entry; timeout : N; log : list (N*code*N); subs : list (N*kind); dropped : list N }.
-Definition set_queue (s:st) (v:list entry) : st := mkSt v (fdmap s) (timers s) (stop s) (polling s) (reactor s) (woken s) (clock s) (counter s) (lpc s) (running s) (timeout s) (log s) (subs s) (dropped s).
-Definition set_fdmap (s:st) (v:list (Z*iod)) : st := mkSt (queue s) v (timers s) (stop s) (polling s) (reactor s) (woken s) (clock s) (counter s) (lpc s) (running s) (timeout s) (log s) (subs s) (dropped s).
-Definition set_timers (s:st) (v:list (N*N)) : st := mkSt (queue s) (fdmap s) v (stop s) (polling s) (reactor s) (woken s) (clock s) (counter s) (lpc s) (running s) (timeout s) (log s) (subs s) (dropped s).
-Definition set_stop (s:st) (v:bool) : st := mkSt (queue s) (fdmap s) (timers s) v (polling s) (reactor s) (woken s) (clock s) (counter s) (lpc s) (running s) (timeout s) (log s) (subs s) (dropped s).
-Definition set_polling (s:st) (v:bool) : st := mkSt (queue s) (fdmap s) (timers s) (stop s) v (reactor s) (woken s) (clock s) (counter s) (lpc s) (running s) (timeout s) (log s) (subs s) (dropped s).
-Definition set_reactor (s:st) (v:bool) : st := mkSt (queue s) (fdmap s) (timers s) (stop s) (polling s) v (woken s) (clock s) (counter s) (lpc s) (running s) (timeout s) (log s) (subs s) (dropped s).
-Definition set_woken (s:st) (v:bool) : st := mkSt (queue s) (fdmap s) (timers s) (stop s) (polling s) (reactor s) v (clock s) (counter s) (lpc s) (running s) (timeout s) (log s) (subs s) (dropped s).
-Definition set_clock (s:st) (v:N) : st := mkSt (queue s) (fdmap s) (timers s) (stop s) (polling s) (reactor s) (woken s) v (counter s) (lpc s) (running s) (timeout s) (log s) (subs s) (dropped s).
-Definition set_counter (s:st) (v:nat) : st := mkSt (queue s) (fdmap s) (timers s) (stop s) (polling s) (reactor s) (woken s) (clock s) v (lpc s) (running s) (timeout s) (log s) (subs s) (dropped s).
-Definition set_lpc (s:st) (v:pc) : st := mkSt (queue s) (fdmap s) (timers s) (stop s) (polling s) (reactor s) (woken s) (clock s) (counter s) v (running s) (timeout s) (log s) (subs s) (dropped s).
-Definition set_running (s:st) (v:option entry) : st := mkSt (queue s) (fdmap s) (timers s) (stop s) (polling s) (reactor s) (woken s) (clock s) (counter s) (lpc s) v (timeout s) (log s) (subs s) (dropped s).
-Definition set_timeout (s:st) (v:N) : st := mkSt (queue s) (fdmap s) (timers s) (stop s) (polling s) (reactor s) (woken s) (clock s) (counter s) (lpc s) (running s) v (log s) (subs s) (dropped s).
-Definition set_log (s:st) (v:list (N*code*N)) : st := mkSt (queue s) (fdmap s) (timers s) (stop s) (polling s) (reactor s) (woken s) (clock s) (counter s) (lpc s) (running s) (timeout s) v (subs s) (dropped s).
-Definition set_subs (s:st) (v:list (N*kind)) : st := mkSt (queue s) (fdmap s) (timers s) (stop s) (polling s) (reactor s) (woken s) (clock s) (counter s) (lpc s) (running s) (timeout s) (log s) v (dropped s).
-Definition set_dropped (s:st) (v:list N) : st := mkSt (queue s) (fdmap s) (timers s) (stop s) (polling s) (reactor s) (woken s) (clock s) (counter s) (lpc s) (running s) (timeout s) (log s) (subs s) v.
+Record st := mkSt { queue : list entry; fdmap : list (Z*iod); timers : list (N*N); stop : bool; polling : bool; reactor : bool; woken : bool; clock : N; counter : nat; lpc : pc; running : option entry; timeout : N; pstart : N; log : list (N*code*N); subs : list (N*kind); dropped : list N }.
+Definition set_queue (s:st) (v:list entry) : st := mkSt v (fdmap s) (timers s) (stop s) (polling s) (reactor s) (woken s) (clock s) (counter s) (lpc s) (running s) (timeout s) (pstart s) (log s) (subs s) (dropped s).
+Definition set_fdmap (s:st) (v:list (Z*iod)) : st := mkSt (queue s) v (timers s) (stop s) (polling s) (reactor s) (woken s) (clock s) (counter s) (lpc s) (running s) (timeout s) (pstart s) (log s) (subs s) (dropped s).
+Definition set_timers (s:st) (v:list (N*N)) : st := mkSt (queue s) (fdmap s) v (stop s) (polling s) (reactor s) (woken s) (clock s) (counter s) (lpc s) (running s) (timeout s) (pstart s) (log s) (subs s) (dropped s).
+Definition set_stop (s:st) (v:bool) : st := mkSt (queue s) (fdmap s) (timers s) v (polling s) (reactor s) (woken s) (clock s) (counter s) (lpc s) (running s) (timeout s) (pstart s) (log s) (subs s) (dropped s).
+Definition set_polling (s:st) (v:bool) : st := mkSt (queue s) (fdmap s) (timers s) (stop s) v (reactor s) (woken s) (clock s) (counter s) (lpc s) (running s) (timeout s) (pstart s) (log s) (subs s) (dropped s).
+Definition set_reactor (s:st) (v:bool) : st := mkSt (queue s) (fdmap s) (timers s) (stop s) (polling s) v (woken s) (clock s) (counter s) (lpc s) (running s) (timeout s) (pstart s) (log s) (subs s) (dropped s).
+Definition set_woken (s:st) (v:bool) : st := mkSt (queue s) (fdmap s) (timers s) (stop s) (polling s) (reactor s) v (clock s) (counter s) (lpc s) (running s) (timeout s) (pstart s) (log s) (subs s) (dropped s).
+Definition set_clock (s:st) (v:N) : st := mkSt (queue s) (fdmap s) (timers s) (stop s) (polling s) (reactor s) (woken s) v (counter s) (lpc s) (running s) (timeout s) (pstart s) (log s) (subs s) (dropped s).
+Definition set_counter (s:st) (v:nat) : st := mkSt (queue s) (fdmap s) (timers s) (stop s) (polling s) (reactor s) (woken s) (clock s) v (lpc s) (running s) (timeout s) (pstart s) (log s) (subs s) (dropped s).
+Definition set_lpc (s:st) (v:pc) : st := mkSt (queue s) (fdmap s) (timers s) (stop s) (polling s) (reactor s) (woken s) (clock s) (counter s) v (running s) (timeout s) (pstart s) (log s) (subs s) (dropped s).
+Definition set_running (s:st) (v:option entry) : st := mkSt (queue s) (fdmap s) (timers s) (stop s) (polling s) (reactor s) (woken s) (clock s) (counter s) (lpc s) v (timeout s) (pstart s) (log s) (subs s) (dropped s).
+Definition set_timeout (s:st) (v:N) : st := mkSt (queue s) (fdmap s) (timers s) (stop s) (polling s) (reactor s) (woken s) (clock s) (counter s) (lpc s) (running s) v (pstart s) (log s) (subs s) (dropped s).
+Definition set_pstart (s:st) (v:N) : st := mkSt (queue s) (fdmap s) (timers s) (stop s) (polling s) (reactor s) (woken s) (clock s) (counter s) (lpc s) (running s) (timeout s) v (log s) (subs s) (dropped s).
+Definition set_log (s:st) (v:list (N*code*N)) : st := mkSt (queue s) (fdmap s) (timers s) (stop s) (polling s) (reactor s) (woken s) (clock s) (counter s) (lpc s) (running s) (timeout s) (pstart s) v (subs s) (dropped s).
+Definition set_subs (s:st) (v:list (N*kind)) : st := mkSt (queue s) (fdmap s) (timers s) (stop s) (polling s) (reactor s) (woken s) (clock s) (counter s) (lpc s) (running s) (timeout s) (pstart s) (log s) v (dropped s).
+Definition set_dropped (s:st) (v:list N) : st := mkSt (queue s) (fdmap s) (timers s) (stop s) (polling s) (reactor s) (woken s) (clock s) (counter s) (lpc s) (running s) (timeout s) (pstart s) (log s) (subs s) v.
 
 Definition IDLE_MS : N := 3600000.
-Definition st0 : st := mkSt [] [] [] false false false false 0 0%nat Idle None 0 [] [] [].
+Definition st0 : st := mkSt [] [] [] false false false false 0 0%nat Idle None 0 0 [] [] [].
 
 (* ---- descriptor table (socket_map<io_data>): first binding wins, absent = default io_data ---- *)
 Fixpoint fd_get (m:list (Z*iod)) (fd:Z) : iod :=
@@ -120,7 +121,7 @@ Definition timers_stage (s:st) : st :=
   if stop s then set_lpc s Idle
   else let (q,t') := t_due (timers s) (clock s) in
        let s1 := set_timers (set_queue s (queue s ++ q)) t' in
-       set_lpc (set_polling (set_timeout s1 (wait_time s1)) true) Poll.
+       set_lpc (set_polling (set_pstart (set_timeout s1 (wait_time s1)) (clock s1)) true) Poll.
 Definition after_lock (s:st) : st :=
   match queue s with
   | e :: q' =>
@@ -289,12 +290,12 @@ Definition ptokens (p:pool) : list N := map snd (pq p) ++ wjob_toks (wjob p) ++ 
 (* Layer B: the deterministic script interpreter used for the correspondence run (harness/C17_loop.cpp
    implements the same schedule around the real io_service).  It changes the loop state only via [step]. *)
 Inductive op :=
-| OP (k:N) | OT (k:N) (d:Z) | OU (k:N) (d:Z) | OCT (k:N) | OI (k:N) (f:nat) | OO (k:N) (f:nat)
+| OP (k:N) | OPE (k:N) | OT (k:N) (d:Z) | OU (k:N) (d:Z) | OCT (k:N) | OI (k:N) (f:nat) | OO (k:N) (f:nat)
 | OCF (f:nat) | OCL (f:nat) | OW (f:nat) | OR (f:nat) | OF (f:nat) | OD (f:nat) | OK (f:nat) | OA (d:N) | OX.
 Record osfd := mkOs { closedA : bool; hup : bool; inq : bool; full : bool;
                       nval : option (bool*bool) (* poll reactor: interest it silently dropped after POLLNVAL *) }.
 Definition os0 := mkOs false false false false None.
-Inductive skind := SP | ST (dl:N) | SI (f:nat) | SO (f:nat).
+Inductive skind := SP | SPE | ST (dl:N) | SI (f:nat) | SO (f:nat).
 Inductive rkind := REpoll | RPoll | RSelect.
 Record sim := mkSim { ms : st; os : list osfd; phases : list (list op); bodies : list (N * list op); stage : nat;
                       tmeta : list (N * (bool * N)); sout : list (N*skind); rk : rkind; pickhi : bool; mark : nat }.
@@ -322,6 +323,7 @@ Fixpoint assoc {A} (l:list (N*A)) (k:N) : option A :=
 Definition do_op (o:op) (x:sim) : sim :=
   match o with
   | OP k => stp (LPost k Ok) (add_sout k SP x)
+  | OPE k => stp (LPost k Canceled) (add_sout k SPE x)
   | OT k d => let dl := Z.to_N (Z.of_N (clock (ms x)) + d) in
               stp (LSetTimer k dl) (set_tmeta (add_sout k (ST dl) x) ((k,(false,dl)) :: tmeta x))
   | OU k d => let dl := Z.to_N (Z.of_N (clock (ms x)) + d) in
